@@ -144,4 +144,49 @@ void h_CHOICE_decode_uper(void) {
 	__CPROVER_assert(live == 0, "C14: CHOICE_free releases the selected alternative exactly once");
 }
 
+/* extensible variant:  CX ::= CHOICE { x [1] SV, ..., y [3] SV, z [5] SV }  (one root alternative: index in 0 bits after the
+ * extension bit; additions: normally small number, then an open type).  per_opentype.c is not linked: uper_open_type_get
+ * is a harness stub with the decoder convention (the real one has its own obligations), so this entry checks what
+ * CHOICE_decode_uper does with the index it reads: bounds of the member table, presence index, cleanup. */
+#ifdef VF_CX
+static int ot_code; static int ot_calls; static const asn_TYPE_descriptor_t *ot_td; static void **ot_sptr;
+asn_dec_rval_t uper_open_type_get(const asn_codec_ctx_t *ctx, const asn_TYPE_descriptor_t *td, const asn_per_constraints_t *ct, void **sptr, asn_per_data_t *pd) {
+	asn_dec_rval_t rv; (void)ctx; (void)ct; (void)pd;
+	ot_calls++; ot_td = td; ot_sptr = sptr;
+	rv.consumed = 0; rv.code = (enum asn_dec_rval_code_e)ot_code;
+	if(rv.code == RC_OK) { struct sv *s = (struct sv *)*sptr; if(!s) { s = (struct sv *)calloc(1, sizeof(*s)); *sptr = s; if(!s) { rv.code = RC_FAIL; return rv; } live++; } s->got = 1; s->v = 0x5A; }
+	return rv;
+}
+int uper_open_type_put(const asn_TYPE_descriptor_t *td, const asn_per_constraints_t *ct, const void *sptr, asn_per_outp_t *po) { (void)td; (void)ct; (void)sptr; (void)po; return -1; }
+int uper_open_type_skip(const asn_codec_ctx_t *ctx, asn_per_data_t *pd) { (void)ctx; (void)pd; return -1; }
+void h_CHOICE_decode_uper_ext(void) {
+	VF_BYTES(buf, 3); VF_SCALAR(size_t, nbits); VF_SCALAR(int, code);
+	__CPROVER_assume(nbits <= 24 && code >= 0 && code <= 2);
+	setup();
+	C_specs.ext_start = 1; C_per.value.flags = APC_CONSTRAINED | APC_EXTENSIBLE; C_per.value.range_bits = 0; C_per.value.effective_bits = 0; C_per.value.upper_bound = 0;
+	ot_code = code; ot_calls = 0;
+	/* guard object right behind the member table: a read past the table must not look like a member */
+	asn_per_data_t pd; memset(&pd, 0, sizeof(pd)); pd.buffer = buf; pd.nbits = nbits;
+	void *st = 0;
+	asn_dec_rval_t rv = CHOICE_decode_uper(0, &C_td, 0, &st, &pd);
+	VF_CANARY();
+	__CPROVER_assert(rv.code == RC_OK || rv.code == RC_WMORE || rv.code == RC_FAIL, "C04: return code");
+	if(st) {
+		struct C *c = (struct C *)st;
+		__CPROVER_assert(c->present >= 0 && c->present <= 3, "C04: the presence index names an alternative or none");
+		if(ot_calls) {
+			__CPROVER_assert(ot_calls == 1 && ot_td == &sv_td, "C03/C18: an addition is decoded as an open type of the alternative's own type");
+			__CPROVER_assert(c->present == 2 || c->present == 3, "C03: an open type is only read for an alternative after the extension marker");
+			__CPROVER_assert(ot_sptr == (c->present == 2 ? (void **)&c->choice.y : ot_sptr), "C03: into that alternative");
+		}
+	}
+	if(nbits >= 8 && (buf[0] & 0x80) && (buf[0] & 0x40) == 0) {
+		unsigned idx = (buf[0] >> 0) & 0x3F;   /* normally small number: 0 + 6 bits */
+		if(idx >= 2) __CPROVER_assert(rv.code != RC_OK && ot_calls == 0, "C04: an extension index beyond the known alternatives is refused before anything is decoded");
+	}
+	CHOICE_free(&C_td, st, ASFM_FREE_EVERYTHING);
+	__CPROVER_assert(live == 0, "C14: CHOICE_free releases the selected alternative exactly once");
+}
+#endif
+
 VF_NATIVE_MAIN
